@@ -8,10 +8,68 @@ package deadline
 // Machine-checked contracts for /verif (govc).  Comment-only.
 
 //@ arith int
+//@ monitor Deadline mu: timer, done, deadline, state, pending
 
-//@ trusted func New() (d *Deadline)
-//@   ensures d != nil && fresh(d)
+// Ghost model of the runtime timer owned by a Deadline (trusted, see `env fire` and the ghost blocks at the
+// timer calls): armed = the latest arming has neither fired nor been stopped; inflight = callbacks dispatched
+// by the runtime that have not yet accounted for themselves; fired = the latest arming has fired.
+//@ ghost Deadline armed bool
+//@ ghost Deadline inflight mathint
+//@ ghost Deadline fired bool
+//@ ghost global lastUntil mathint
 
-//@ trusted func (d *Deadline) Done() (c <-chan struct{})
-//@   pure
-//@   ensures c != nil
+//@ invariant (d *Deadline) acct: d.pending == d.inflight + ite(d.armed, 1, 0) && d.inflight >= 0
+//@ invariant (d *Deadline) notimer: d.timer == nil ==> !d.armed && d.inflight == 0
+//@ invariant (d *Deadline) armed: d.armed ==> d.state == deadlineStarted && d.timer != nil
+//@ invariant (d *Deadline) started: d.state == deadlineStarted && !d.armed ==> d.fired && d.inflight >= 1
+//@ invariant (d *Deadline) chan: d.done != nil && (closed(d.done) ==> d.state == deadlineExceeded)
+//@ invariant (d *Deadline) state: d.state <= deadlineExceeded && (d.state != deadlineStopped ==> d.deadline != 0)
+
+// The runtime fires an armed timer: it is no longer armed, one more callback is in flight.
+//@ env func (d *Deadline) fire()
+//@   requires d.armed
+//@   does d.armed = false; d.inflight = d.inflight + 1; d.fired = true
+
+//@ func New() (d *Deadline)
+//@   constructor
+//@   ensures [new] d != nil && fresh(d) && d.inv() && d.state == deadlineStopped && d.deadline == 0 && !closed(d.done)
+
+// timeout is only ever invoked by the runtime, once per fired arming (callback token: inflight >= 1).
+//@ func (d *Deadline) timeout()
+//@   option trust_unlocked_close=true
+//@   ghost at lock: assume d.inflight >= 1; d.inflight = d.inflight - 1
+//@   ensures [nostale] d.state == deadlineExceeded && atlock(d.state) != deadlineExceeded ==> atlock(d.fired) && atlock(d.state) == deadlineStarted && atlock(d.deadline) != 0
+//@   ensures [only] d.state != atlock(d.state) ==> d.state == deadlineExceeded
+//@   ensures [same] d.done == atlock(d.done) && d.deadline == atlock(d.deadline)
+
+//@ func (d *Deadline) Set(setTo time.Time)
+//@   modifies lastUntil
+//@   ghost at lock: assume d.inflight <= 200
+//@   ghost after Stop#1: assume result$ ==> d.armed; d.inflight = d.inflight + ite(d.armed && !result$, 1, 0); d.fired = d.fired || (d.armed && !result$); d.armed = false
+//@   ghost after Reset#1: d.inflight = d.inflight + ite(d.armed && !result$, 1, 0); d.armed = true; d.fired = false
+//@   ghost after afterFunc#1: d.armed = true; d.fired = false
+//@   ensures [deadline] d.deadline == setTo
+//@   ensures [zero] setTo == 0 ==> d.state == deadlineStopped && !d.armed
+//@   ensures [future] setTo != 0 && lastUntil > 0 ==> d.state == deadlineStarted && d.armed && !d.fired && !closed(d.done)
+//@   ensures [past] setTo != 0 && lastUntil <= 0 ==> d.state == deadlineExceeded && closed(d.done)
+//@   ensures [nosignal] (setTo == 0 || lastUntil > 0) ==> !closed(d.done)
+//@   ensures [freshchan] atlock(d.state) == deadlineExceeded ==> d.done != atlock(d.done)
+//@   ensures [keepchan] atlock(d.state) != deadlineExceeded ==> d.done == atlock(d.done)
+
+//@ func (d *Deadline) Done() (c <-chan struct{})
+//@   ensures [done] c == atlock(d.done) && c != nil
+
+//@ func (d *Deadline) Err() (err error)
+//@   ensures [err] (err != nil) == (atlock(d.state) == deadlineExceeded)
+//@   ensures [which] err != nil ==> err == context.DeadlineExceeded
+
+//@ func (d *Deadline) Deadline() (t time.Time, ok bool)
+//@   ensures [last] t == atlock(d.deadline) && ok == (t != 0)
+
+// runtime timers (trusted; their effect on the ghost model is given at the call sites in Set)
+//@ trusted func afterFunc(dur time.Duration, f func()) (t timer)
+//@   ensures t != nil
+//@ func (t timer) Stop() (r bool)
+//@ func (t timer) Reset(dur time.Duration) (r bool)
+
+//@ property C09: New, Deadline.timeout, Deadline.Set, Deadline.Done, Deadline.Err, Deadline.Deadline, Deadline.fire
